@@ -72,3 +72,16 @@ Proof.
   clear G Hwf. induction ts as [|t ts IH]; simpl; [reflexivity|].
   rewrite (guard_is_ok _ _ _ (Hts t (or_introl eq_refl))). f_equal. apply IH. intros x Hx. apply Hts. now right.
 Qed.
+
+Lemma set_items_pinned yl t v l :
+  in_guard yl (TSet t) v = true -> wf_ty (TSet t) = true -> seq_items v = Some l ->
+  (forall x, In x l -> in_guard yl t x = true /\ is_str x = false /\ x <> VNone) ->
+  is_ok (impl yl (TSet t) v) = forallb (fun x => is_ok (impl yl t x)) l.
+Proof.
+  intros G Hwf Hs Hl. rewrite (guard_is_ok _ _ _ G), (set_items_parse yl t v l Hwf Hs). clear G Hs.
+  assert (Hwt : wf_ty t = true) by (simpl in Hwf; apply andb_true_iff in Hwf; tauto). clear Hwf.
+  induction l as [|x l IH]; simpl; [reflexivity|].
+  destruct (Hl x (or_introl eq_refl)) as [Gx [Sx Nx]].
+  rewrite (guard_is_ok _ _ _ Gx), (accepts_object yl t x Hwt Sx Nx). f_equal.
+  apply IH. intros y Hy. apply Hl. now right.
+Qed.
